@@ -46,7 +46,11 @@ func (prop) Generate(rng *rand.Rand, tier string) []corr.Case {
 		nv, extra, batch int
 		weights          string
 	}
-	shapes := []shape{{4, 1, 4, "heavy"}, {1, 1, 3, "rand"}, {5, 2, 6, "steps"}, {3, 2, 4, "rand"}, {7, 1, 7, "heavy"}, {4, 2, 5, "large"}}
+	// "standby": some entries of the application's list have BFT weight 0 (standby validators: they own their
+	// slots and sign with their own generator key, they do not vote and are no BFT validators) - in genesis and,
+	// through the validator changes of the history, later; the batch size counts the voting entries only.
+	shapes := []shape{{4, 1, 4, "heavy"}, {1, 1, 3, "rand"}, {5, 2, 6, "steps"}, {3, 2, 4, "rand"}, {7, 1, 7, "heavy"}, {4, 2, 5, "large"},
+		{4, 1, 3, "standby"}, {6, 2, 5, "standby"}}
 	rounds, blocks, probeEvery := 1, 20, 5
 	if tier == "thorough" {
 		rounds, blocks, probeEvery = 6, 60, 4
@@ -61,7 +65,7 @@ func (prop) Generate(rng *rand.Rand, tier string) []corr.Case {
 			c.genesisTS -= c.genesisTS % c.blockTime
 			c.weights = make([]uint64, s.nv)
 			profile := s.weights
-			if r > 0 && r%2 == 0 {
+			if r > 0 && r%2 == 0 && s.weights != "standby" { // (the batch size of a standby shape counts its voting entries only)
 				profile = []string{"rand", "heavy", "steps", "large"}[rng.Intn(4)]
 			}
 			for i := range c.weights {
@@ -84,6 +88,18 @@ func (prop) Generate(rng *rand.Rand, tier string) []corr.Case {
 			}
 			if profile == "steps" {
 				rng.Shuffle(s.nv, func(a, b int) { c.weights[a], c.weights[b] = c.weights[b], c.weights[a] })
+			}
+			if profile == "standby" {
+				// 1 .. nv/3 standby entries at random positions, the others weight 1 or 2 (at least two voting entries)
+				k := 1 + rng.Intn(max(1, s.nv/3))
+				for _, i := range rng.Perm(s.nv)[:k] {
+					c.weights[i] = 0
+				}
+				for i := range c.weights {
+					if c.weights[i] != 0 && rng.Intn(4) == 0 {
+						c.weights[i] = 2
+					}
+				}
 			}
 			nb := blocks + 3*s.batch
 			ops, err := planCase(rng, c, nb, probeEvery)
@@ -184,6 +200,8 @@ type runner struct {
 	cached  *snapshot // state after the last candidate if it was verified to be unchanged
 	// volReported: the volatile-state oracle (volatile.go) fired in this case already
 	volReported bool
+	// onceSigs: signatures of the validator-list oracles (applist.go) reported in this case already
+	onceSigs map[string]bool
 }
 
 type snapshot struct {
@@ -336,7 +354,9 @@ func (r *runner) candidate(i int, w []string) string {
 		if !bytes.Equal(n.Tip().Encode(), b.Encode()) {
 			r.fail(i, "c03-appended-block-differs", label+": the new tip is not the block that was offered")
 		}
-		if expect == expReject {
+		if expect == expReject && strings.HasPrefix(label, "owner-") {
+			r.failOnce(i, "c03-wrong-slot-owner-accepted", fmt.Sprintf("%s: a block generated and signed by a validator that does not own the slot was appended; %s", label, r.slotDetail(b)))
+		} else if expect == expReject {
 			r.fail(i, "c03-unenforced:"+ruleOf(label), fmt.Sprintf("%s: a block violating the rule was appended at height %d", label, tip.Height))
 		}
 		if expect == expKnown {
@@ -389,7 +409,10 @@ func (r *runner) candidate(i int, w []string) string {
 				r.fail(i, "c03-panic", label+": "+perr.Error())
 			}
 		}
-		if expect == expAccept {
+		if expect == expAccept && strings.HasPrefix(out, "rej generator") {
+			// the block was built by the owner of the slot according to the APPLICATION's list
+			r.failOnce(i, "c03-owner-block-rejected", fmt.Sprintf("%s: the block of the owner of the slot was refused (%v); %s", label, perr, r.slotDetail(b)))
+		} else if expect == expAccept {
 			r.fail(i, "c03-valid-rejected:"+ruleOf(label), fmt.Sprintf("%s: %v", label, perr))
 		}
 		if len(changed) != 0 {
@@ -402,6 +425,7 @@ func (r *runner) candidate(i int, w []string) string {
 	if accepted {
 		if kind == "apply" {
 			r.applied = append(r.applied, b)
+			r.storedOracle(i, consensusValidatorsOf(n.ABI))
 		} else if err := r.fresh(); err != nil { // candidates are evaluated on the same state: rebuild it
 			r.fail(i, "c03-harness-replay", err.Error())
 		}
@@ -415,7 +439,7 @@ func (r *runner) candidate(i int, w []string) string {
 func ruleOf(label string) string {
 	for _, p := range []struct{ prefix, rule string }{
 		{"unsigned-", "signature-covers-field"}, {"version", "version"}, {"ts-", "slot"}, {"height", "height"}, {"prev-", "previous-block"},
-		{"generator", "generator"}, {"signer", "signature"}, {"signature", "signature"}, {"chain-id", "chain-id"}, {"mhp", "max-height-prevoted"},
+		{"generator", "generator"}, {"owner-", "slot-owner"}, {"signer", "signature"}, {"signature", "signature"}, {"chain-id", "chain-id"}, {"mhp", "max-height-prevoted"},
 		{"mhg", "contradiction"}, {"implies", "implies-max-prevotes"}, {"garbage-EventRoot", "event-root"}, {"short-EventRoot", "event-root"},
 		{"empty-EventRoot", "event-root"}, {"event-root", "event-root"}, {"garbage-StateRoot", "state-root"}, {"short-StateRoot", "state-root"},
 		{"garbage-TransactionRoot", "transaction-root"}, {"short-TransactionRoot", "transaction-root"}, {"garbage-AssetRoot", "asset-root"},
@@ -476,6 +500,7 @@ func (prop) RunImpl(c corr.Case) ([]string, []corr.Fail) {
 				if u := uncoveredHeaderFields(); len(u) != 0 {
 					r.fail(i, "c03-unmutated-header-field", strings.Join(u, ","))
 				}
+				r.storedOracle(i, -1) // what the node stored for the genesis answer of the application
 				return "ok"
 			case r.n == nil:
 				return "bad-op"
